@@ -547,6 +547,8 @@ static var Slice_Iter_Init(var self) {
   struct Slice* s = self;
   struct Range* r = s->range;
   
+  if (Range_Iter_Init(r) is Terminal) { return Terminal; }
+  
   if (r->step > 0) {
     var curr = iter_init(s->iter);
     for(int64_t i = 0; i < r->start; i++) {
@@ -569,6 +571,8 @@ static var Slice_Iter_Init(var self) {
 static var Slice_Iter_Next(var self, var curr) {
   struct Slice* s = self;
   struct Range* r = s->range;
+  
+  if (Range_Iter_Next(r, NULL) is Terminal) { return Terminal; }
   
   if (r->step > 0) {
     for (int64_t i = 0; i < r->step; i++) {
@@ -594,9 +598,13 @@ static var Slice_Iter_Last(var self) {
   struct Slice* s = self;
   struct Range* r = s->range;
   
+  var last = Range_Iter_Last(r);
+  if (last is Terminal) { return Terminal; }
+  int64_t pos = c_int(last);
+  
   if (r->step > 0) {
     var curr = iter_last(s->iter);
-    for(int64_t i = 0; i < (int64_t)len(s->iter)-r->stop; i++) {
+    for(int64_t i = 0; i < (int64_t)len(s->iter)-1-pos; i++) {
       curr = iter_prev(s->iter, curr);
     }
     return curr;
@@ -604,7 +612,7 @@ static var Slice_Iter_Last(var self) {
   
   if (r->step < 0) {
     var curr = iter_init(s->iter);
-    for(int64_t i = 0; i < r->start; i++) {
+    for(int64_t i = 0; i < pos; i++) {
       curr = iter_next(s->iter, curr);
     }
     return curr;
@@ -616,6 +624,8 @@ static var Slice_Iter_Last(var self) {
 static var Slice_Iter_Prev(var self, var curr) {
   struct Slice* s = self;
   struct Range* r = s->range;
+  
+  if (Range_Iter_Prev(r, NULL) is Terminal) { return Terminal; }
   
   if (r->step > 0) {
     for (int64_t i = 0; i < r->step; i++) {
